@@ -11,7 +11,7 @@ from collections import OrderedDict
 ID = "C17"
 
 RULE = ("each run = one operation history (construction + 3..25 mapping operations, keys from a pool of "
-        "27 spellings of 9 names incl. bytes, sharp-s, dotless-i and digraph case variants) on one of "
+        "30 spellings of 9 names incl. bytes (some with a UTF-8 byte order mark), sharp-s, dotless-i and digraph case variants) on one of "
         "CaselessDict/Parameters/Component/Event/Calendar/Timezone, executed step by step against a "
         "reference dict keyed by to_unicode(key).upper(); non-trivial = the history reached at least one "
         "probe (case-variant hit, failing op checked for atomicity, derived object adopted, ...); distinct = "
@@ -40,13 +40,13 @@ REQUIRED_PROBES["thorough"] = REQUIRED_PROBES["quick"]
 
 CLASSES = ["CaselessDict", "Parameters", "Component", "Event", "Calendar", "Timezone"]
 
-# 27 spellings of 9 names
+# 30 spellings of 9 names
 NAMES = {
     "SUMMARY": [["s", "summary"], ["s", "SUMMARY"], ["s", "Summary"], ["s", "sUmMaRy"],
-                ["b", "summary"], ["b", "SUMMARY"]],
+                ["b", "summary"], ["b", "SUMMARY"], ["bom", "Summary"]],
     "DTSTART": [["s", "dtstart"], ["s", "DTSTART"], ["s", "DtStart"], ["b", "dtstart"]],
-    "X-FOO": [["s", "x-foo"], ["s", "X-FOO"], ["s", "X-Foo"]],
-    "TZID": [["s", "tzid"], ["s", "TZID"], ["b", "TzId"]],
+    "X-FOO": [["s", "x-foo"], ["s", "X-FOO"], ["s", "X-Foo"], ["bom", "x-foo"]],
+    "TZID": [["s", "tzid"], ["s", "TZID"], ["b", "TzId"], ["bom", "TZID"]],
     "STRASSE": [["s", "straße"], ["s", "STRASSE"], ["s", "strasse"], ["b", "straße"]],
     "ID": [["s", "ıd"], ["s", "id"], ["s", "ID"]],
     "VERSION": [["s", "version"], ["s", "VERSION"]],
@@ -62,6 +62,8 @@ class InjectedFault(Exception):
 
 
 def key_py(spec):
+    if spec[0] == "bom":     # bytes that start with a UTF-8 byte order mark: decoded with utf-8-sig, the mark goes
+        return b"\xef\xbb\xbf" + spec[1].encode("utf-8")
     return spec[1].encode("utf-8") if spec[0] == "b" else spec[1]
 
 
@@ -71,7 +73,7 @@ def norm(spec):
 
 
 def key_class(spec):
-    if spec[0] == "b":
+    if spec[0] in ("b", "bom"):
         return "bytes"
     s = spec[1]
     if s == s.upper():
